@@ -41,8 +41,8 @@ def run_case(acc, case):
         length = pages * 1024 + case['extra']
         fw = bytes([0x5a]) * length
         dev = dfusim.Device(variant, pattern_seed=3)
-        r = dfusim.run(fw, dev)
-        acc['ntkeys'].add(core.ckey('over', variant, case['extra']))
+        r = dfusim.run(fw, dev, via_fifo=case.get('fifo', False))
+        acc['ntkeys'].add(core.ckey('over', variant, case['extra'], case.get('fifo')))
         acc['ctr']['oversize_runs'] += 1
         if dev.dnloads or bytes(dev.flash) != dev.initial:
             core.add_viol(acc, 'firmware of %d bytes for a %d-byte flash: %d DNLOAD requests were sent (first %r)' % (
@@ -113,6 +113,8 @@ def plan(tier, seed):
     for v, pages in dfusim.VARIANTS.items():
         for extra in (1, 2, 1023, 1024, 1025, pages * 1024):
             cases.append({'kind': 'oversize', 'variant': v, 'extra': extra})
+        for extra in (1, 1025):
+            cases.append({'kind': 'oversize', 'variant': v, 'extra': extra, 'fifo': True})     # not a regular file: no size to stat
     rng = random.Random('c19-plan-%d' % seed)
     maxp = 4 if tier == 'quick' else 6
     codes_small = STATUS if tier == 'thorough' else None
